@@ -701,7 +701,7 @@ class VolumeMatrixUnit(Unit):
     module = FN
     qualname = "VolumeMatrix"
     prop = "C20"
-    timeout = 30
+    timeout = 90        # the d = 3 self-term / row-sum goals are decided by cvc5 in ~15 s on an idle core (z3 gives up): budget for a loaded machine
     summaries = CONVERT
     loop_opts = {"const_sum_closed": True}
 
